@@ -335,3 +335,35 @@ Proof.
   destruct (td_var s v) as [u|]; [|tauto].
   destruct M as [o [Eo _]]. rewrite Eo. split; discriminate.
 Qed.
+
+(** ** The instances the correspondence run evaluates (no cache, standard fuel):
+    the hypotheses are the two checkers the driver evaluates on every snapshot *)
+
+Lemma trun_nc_eq : forall cap s,
+  (forall f, trun_nc cap s (TCNot f) = tnot_nc cap s f) /\
+  (forall op f g, trun_nc cap s (TCBin op f g) = tbin_nc cap s op f g) /\
+  (forall f g h, trun_nc cap s (TCIte f g h) = tite_nc cap s f g h).
+Proof. intros. repeat split. Qed.
+
+Theorem tdd_nc_exact : forall cap s k, td_ok_b s = true -> tcall_ok_b s k = true ->
+  trun_nc cap s k <> GStuck /\
+  exists su cu ru, trun_unc s k = Some (su, cu, ru) /\
+    td_ok_b su = true /\ tcall_spec s k su ru /\
+    (node_count su <= Nat.max cap (node_count s) -> trun_nc cap s k = GOk su cu ru) /\
+    (Nat.max cap (node_count s) < node_count su ->
+       exists s' c', trun_nc cap s k = GOom s' c' /\
+         td_ok_b s' = true /\ extends s s' /\ intact_t s s' /\
+         node_count s <= node_count s' /\ cap <= node_count s').
+Proof.
+  intros cap s k Hb Hk. apply td_ok_b_spec in Hb. apply tcall_ok_b_spec in Hk.
+  split; [apply (tdd_no_panic gt_none unit nc_get nc_add nc_lossy cap _ s tt k Hb (tnc_ok s tt) Hk (le_n _))|].
+  destruct (tdd_exact gt_none unit nc_get nc_add nc_lossy cap _ s tt k Hb (tnc_ok s tt) Hk (le_n _))
+    as [su [cu [ru [E [V [A B]]]]]].
+  exists su, cu, ru. split; [exact E|].
+  destruct (trun_u_ok gt_none unit nc_get nc_add nc_lossy _ s tt k Hb (tnc_ok s tt) Hk (le_n _))
+    as [s1 [c1 [r1 [E1 [B1 _]]]]].
+  unfold trun_unc in E. rewrite E in E1. inversion E1; subst s1 c1 r1.
+  split; [apply td_ok_b_spec; exact B1|]. split; [exact V|]. split; [exact A|].
+  intros Hbig. destruct (B Hbig) as [s' [c' [E' [B' [_ [X' [I' [G' F']]]]]]]].
+  exists s', c'. split; [exact E'|]. split; [apply td_ok_b_spec; exact B'|]. auto.
+Qed.
